@@ -1294,6 +1294,15 @@ fn derive_reprc_new(input: DeriveInput) -> TokenStream {
                 }
                 return implement_reprc_hardcoded_false(name.clone(), &input);
             }
+            if enum1.variants.iter().any(|v| v.discriminant.is_some()) {
+                // The tag in memory is the declared discriminant value, but the tag in the
+                // serialized format is the variant index. They may differ, so the memory
+                // image can't be used as the serialized representation.
+                if opt_in_fast {
+                    abort_call_site!("The #[savefile_require_fast] attribute cannot be used for enums with explicit discriminant values");
+                }
+                return implement_reprc_hardcoded_false(name.clone(), &input);
+            }
 
             let mut conditions = vec![];
 
